@@ -28,6 +28,10 @@ pub struct ChunkedChars<R: Read> {
     /// Remember IO error, if any, here to report it later. This must be shared,
     /// as otherwise we cannot later reach with Saphyr parser API
     pub(crate) err: Rc<RefCell<Option<Error>>>,
+    /// Set once the input has ended (end of file, an I/O or decoding error, the size cap):
+    /// from then on the iterator keeps returning `None`. The parser looks ahead and may ask
+    /// again after the end; it must not be handed the bytes that follow a broken sequence.
+    ended: bool,
 }
 
 impl<R: Read> ChunkedChars<R> {
@@ -37,6 +41,7 @@ impl<R: Read> ChunkedChars<R> {
             total_bytes: 0,
             reader,
             err,
+            ended: false,
         }
     }
 }
@@ -48,6 +53,19 @@ impl<R: Read> Iterator for ChunkedChars<R> {
     /// If error occurs, sets the error field that is a shared reference to the
     /// error value, so that the parser can later pick this up.
     fn next(&mut self) -> Option<char> {
+        if self.ended {
+            return None;
+        }
+        let c = self.next_char();
+        if c.is_none() {
+            self.ended = true;
+        }
+        c
+    }
+}
+
+impl<R: Read> ChunkedChars<R> {
+    fn next_char(&mut self) -> Option<char> {
         // Read exactly one UTF-8 codepoint (1..=4 bytes) from the underlying reader.
         // No internal buffering: rely on the outer BufReader and decoder.
         let mut buf = [0u8; 4];
